@@ -344,6 +344,11 @@ def check_splice(facts):
                     insb = (exp or ins)
                     if insb:
                         musts.append(("the insertion of the replacement", insb[0]))
+                    # the replacement is computed afresh for every match: captures differ between matches with equal text
+                    fresh = [bb for bb, t in b.iter_calls() if bb in ns and ((t.get("callee") or "").endswith("expand_replacement")
+                                                                             or (t.get("callee") or "").split("::")[-1] in ("call", "call_mut", "call_once"))]
+                    if fresh:
+                        musts.append(("expanding the template / calling the replacement function for this match", fresh[0]))
                     # the loop ends only when the iterator of matches is exhausted (no `break`)
                     for x in sorted(ns):
                         for y in succ.get(x, []):
@@ -505,6 +510,39 @@ def check_scanner(facts):
                 r.fail(key, "the template character consumed at line %s is thrown away without having been recognised by a test on the peeked "
                             "character (it sits on a default/else edge): an ordinary character after `$` is swallowed" % t.get("line"),
                        facts.loc(fn, t.get("line")))
+    # a scratch String that collects characters inside the scan loop starts empty for every reference
+    from .lbseq import natural_loops as _nl
+    for fn in sorted(fns):
+        b = facts.body(fn)
+        loops = _nl(b)
+        dom = b.dom()
+        for bb, t in b.iter_calls():
+            if not (t.get("callee") or "").endswith("String::push") or not t["args"] or t["args"][0].get("k") not in ("copy", "move"):
+                continue
+            buf, _ = b.root_of(t["args"][0]["pl"]["l"])
+            if buf <= b.argc or "String" not in b.local_ty(buf):
+                continue  # the output parameter
+            inloops = [(h, ns) for h, ns in loops.items() if bb in ns]
+            if not inloops:
+                continue
+            h, ns = max(inloops, key=lambda x: len(x[1]))   # the outermost loop: one iteration = one template item
+            resets = []
+            for bi_, i_, st_ in b.iter_stmts():
+                pass
+            for b2, t2 in b.iter_calls():
+                last2 = (t2.get("callee") or "").split("::")[-1]
+                if last2 == "new" and (t2.get("callee") or "").endswith("String::new") and t2["dest"]["l"] == buf:
+                    resets.append(b2)
+                if last2 in ("clear",) and t2["args"] and t2["args"][0].get("k") in ("copy", "move") and b.root_of(t2["args"][0]["pl"]["l"])[0] == buf:
+                    resets.append(b2)
+            key = "%s buffer `%s` is fresh for each reference" % (fn, b.local_name(buf) or "_%d" % buf)
+            if any(rb in ns and (rb == bb or rb in dom[bb]) for rb in resets):
+                r.ok(key, "created / cleared inside the loop before characters are pushed")
+            else:
+                r.fail(key, "the buffer `%s` that collects the characters of a `${name}` reference (line %s) is not created or cleared on every "
+                            "path through the scan loop before it is filled: a name that expands to nothing leaves its text in the buffer and "
+                            "the next reference is looked up as <old><new>" % (b.local_name(buf) or "_%d" % buf, t.get("line")), facts.loc(fn, t.get("line")))
+            break
     # the guard that opens a `$N` reference and the loop that reads its digits classify characters with one predicate
     preds = {}
     for fn in sorted(fns):
